@@ -88,7 +88,8 @@ BodyOk(r, w) ==
        /\ w.len = r.body.len /\ w.digest = r.body.digest
 
 \* the same response under another writer schedule must give the same bytes
-ScheduleInsensitive(e) == e.res # "Hang" /\ e.res # "Panic" /\ e.total = e.canonTotal /\ e.digest = e.canonDigest
+\* the same bytes AND the same result under every writer schedule
+ScheduleInsensitive(e) == e.res # "Hang" /\ e.res # "Panic" /\ e.res = e.canonRes /\ e.total = e.canonTotal /\ e.digest = e.canonDigest
 
 (* ---------------- C08: failed writes ---------------- *)
 MinN(a, b) == IF a < b THEN a ELSE b
